@@ -14,7 +14,7 @@ STD_OPS = {"add": "Add", "sub": "Sub", "mul": "Mul", "div": "Div"}
 
 
 def txt(n):
-    return A.unparse(n).replace(" ", "")
+    return A.ftxt(n)
 
 
 def tok(ts):
